@@ -1,2 +1,62 @@
-(** placeholder until the theorems land *)
-From SP Require Import Encode.Compile.
+(** C03 - Each trial sequence is exactly one model of the compiled formula.
+
+    [C03_unique_extension]: in the fragment F1 two models of the complete
+    formula that agree on the trial variables 1..variables_per_sample agree on
+    every variable: every auxiliary variable (Cross state variables, Tseitin
+    variables, adder / pop-count / comparator variables) is fixed by the levels
+    chosen in the trials.
+    [C03_vars_contiguous]: the formula mentions no variable above its declared
+    count n', and no auxiliary variable is free (flipping one in a model
+    falsifies the formula).
+    [C03_cardinality_unique]: for EVERY backend request (no fragment) the
+    variables the cardinality encoders add above [b_fresh - 1] are determined by
+    the variables below. *)
+From Coq Require Import ZArith List Bool.
+From SP Require Import Base.Sat Base.Bits Design.Flat Design.Sem.
+From SP Require Import Encode.Compile Encode.CodeSem Encode.Generic Encode.F1Kinds Encode.F1Sem
+     Encode.CompileCorollaries.
+
+Theorem C03_unique_extension :
+  forall (fb : flat) (b : backend) (ok : bool) (n' : Z) (final : cnf) (t1 t2 : asg),
+    in_f1 fb = true -> (0 < T fb)%nat ->
+    compile fb = COk b -> full_cnf b = (ok, n', final) ->
+    agree_upto (GZ fb) t1 t2 -> sat t1 final = true -> sat t2 final = true ->
+    agree_upto n' t1 t2.
+Proof. intros fb b ok n' final t1 t2 HF1 HT Hc. exact (unique_extension fb HF1 HT b Hc ok n' final t1 t2). Qed.
+Print Assumptions C03_unique_extension.
+
+Theorem C03_vars_contiguous :
+  forall (fb : flat) (b : backend) (ok : bool) (n' : Z) (final : cnf),
+    in_f1 fb = true -> (0 < T fb)%nat ->
+    compile fb = COk b -> full_cnf b = (ok, n', final) ->
+    ok = true /\ vars_upto n' final /\
+    forall t v, (GZ fb < v <= n')%Z -> sat t final = true -> sat (upd t v (negb (t v))) final = false.
+Proof. intros fb b ok n' final HF1 HT Hc. exact (vars_contiguous fb HF1 HT b Hc ok n' final). Qed.
+Print Assumptions C03_vars_contiguous.
+
+Theorem C03_cardinality_unique :
+  forall (b : backend) (n' : Z) (final : cnf),
+    (1 <= b_fresh b)%Z ->
+    Forall (req_ok (b_fresh b - 1)) (b_requests b) ->
+    vars_upto (b_fresh b - 1) (b_clauses b) ->
+    full_cnf b = (true, n', final) ->
+    vars_upto n' final /\
+    forall t1 t2, agree_upto (b_fresh b - 1) t1 t2 ->
+      sat t1 final = true -> sat t2 final = true -> agree_upto n' t1 t2.
+Proof.
+  intros b n' final Hf Hok Hv E.
+  destruct (full_cnf_denotes b Hf Hok Hv) as (n1 & f1 & E1 & _ & V & _ & U).
+  rewrite E in E1. inversion E1. subst. split; assumption.
+Qed.
+Print Assumptions C03_cardinality_unique.
+
+(** [GZ fb] is the number of trial variables: the support handed to the samplers *)
+Example C03_support : forall fb, in_f1 fb = true -> GZ fb = zn (Design.Layout.variables_per_sample fb).
+Proof. intros fb HF1. unfold GZ, GN. now rewrite (Encode.LayoutF1.f1_vps fb HF1). Qed.
+
+Example C03_example :
+  in_f1 ex_stroop = true /\ (0 < T ex_stroop)%nat /\ (exists b, compile ex_stroop = COk b).
+Proof.
+  split; [exact (proj1 ex_stroop_in_f1)|]. split; [exact (proj2 ex_stroop_in_f1)|].
+  destruct ex_stroop_compiles as (b & E & _). now exists b.
+Qed.
